@@ -914,6 +914,11 @@ impl BreadthFirstSearch {
         let mut path = Vec::new();
         let mut max_depth = 0;
 
+        // The rules tried below write their conclusions into the caller's facts.
+        // Record them so that a goal that turns out not to be provable leaves
+        // the facts as they were (the depth-first search does the same per rule).
+        facts.begin_undo_frame();
+
         queue.push_back((root_goal as *mut Goal, 0));
 
         while let Some((goal_ptr, depth)) = queue.pop_front() {
@@ -968,6 +973,12 @@ impl BreadthFirstSearch {
         }
 
         let success = root_goal.is_proven();
+
+        if success {
+            facts.commit_undo_frame();
+        } else {
+            facts.rollback_undo_frame();
+        }
 
         SearchResult {
             success,
